@@ -77,10 +77,13 @@ def candidates(rng, n):
     base.append(enum(0, [variant("Get"), variant("Entry")], fixed_name="PHF"))
     for E in SC.dictionary(1):
         base.append(fieldless(copy.deepcopy(E)))
+    nfixed = len(base)
     for k in range(n):
         base.append(fieldless(SC.sample_def(rng, 0, nmax=6, perr=False)))
     cands, did = [], 1
-    for E in base:
+    for bi, E in enumerate(base):
+        if bi == nfixed:
+            did = max(did, 2001)      # the ids of the sampled definitions do not depend on how many hand-written ones precede them
         for phf in (False, True):
             E2 = copy.deepcopy(E)
             E2["id"], E2["name"], E2["phf"], E2["perr"] = did, E.get("fixed_name") or ("E%d" % did), phf, False
